@@ -10,7 +10,8 @@ echo "--- patch: $(git diff --stat | tail -1)"
 go build ./... && go test -vet=off -count=1 ./... 2>&1 | grep -v "no test files" | grep -v "^ok" | head -5; echo "suite rc=$?"
 mkdir -p demo_verif && cp $out/demo_test.go demo_verif/ 2>/dev/null || cp $out/*_test.go demo_verif/
 echo "--- demo WITH the change:"; go test -vet=off -count=1 ./demo_verif/ 2>&1 | tail -4 | cut -c1-200
-git stash -q
+# (no git stash: the stash is shared by all worktrees of /repo)
+git apply -R /tmp/wt/$id.patch
 echo "--- demo WITHOUT the change:"; go test -vet=off -count=1 ./demo_verif/ 2>&1 | tail -2 | cut -c1-200
-git stash pop -q
+git apply /tmp/wt/$id.patch
 rm -rf demo_verif
